@@ -11,6 +11,7 @@ package c05
 
 import (
 	"bytes"
+	"crypto"
 	"crypto/dsa"
 	"crypto/ecdh"
 	"crypto/ecdsa"
@@ -332,16 +333,29 @@ func (c *checker) codePairs() {
 		h    uint8
 		sig  []byte
 		note string
+		only map[uint8]bool // != nil: only tried under these declared hash codes
 	}
 	sigs := map[string][]src{}
 	for _, k := range c.keys {
 		if k.code != 0 {
 			for h := uint8(1); h <= 6; h++ {
-				sigs[k.name] = append(sigs[k.name], src{h, c.honestSig(k, h, msg), fmt.Sprintf("signature honestly made under hash code %d", h)})
+				sigs[k.name] = append(sigs[k.name], src{h: h, sig: c.honestSig(k, h, msg), note: fmt.Sprintf("signature honestly made under hash code %d", h)})
+			}
+			// signatures over digests of every other hash linked into the binary (SHA-512/224, SHA-512/256, ...),
+			// declared under the code points a verifier could mistake for them (crypto.Hash value, and value-1):
+			// codes RFC 5246 does not define stay undefined
+			for ch := crypto.Hash(1); ch < 20; ch++ {
+				if ch == crypto.MD5 || ch == crypto.SHA1 || ch == crypto.SHA224 || ch == crypto.SHA256 || ch == crypto.SHA384 || ch == crypto.SHA512 {
+					continue
+				}
+				if sg, ok := signDigestWith(k.priv, ch, msg); ok {
+					sigs[k.name] = append(sigs[k.name], src{h: 0xfe, sig: sg, note: fmt.Sprintf("signature made over the %v digest of the message", ch),
+						only: map[uint8]bool{uint8(ch): true, uint8(ch) - 1: true, uint8(ch) + 1: true}})
+				}
 			}
 		} else { // Ed25519: its own signature plus honest signatures of other key types
-			sigs[k.name] = append(sigs[k.name], src{0, c.honestSig(k, 4, msg), "Ed25519 signature"}, src{4, c.honestSig(c.by["p256"], 4, msg), "signature made by p256"},
-				src{4, c.honestSig(c.by["rsa2048"], 4, msg), "signature made by rsa2048"}, src{4, c.honestSig(c.by["dsa1024"], 4, msg), "signature made by dsa1024"})
+			sigs[k.name] = append(sigs[k.name], src{h: 0, sig: c.honestSig(k, 4, msg), note: "Ed25519 signature"}, src{h: 4, sig: c.honestSig(c.by["p256"], 4, msg), note: "signature made by p256"},
+				src{h: 4, sig: c.honestSig(c.by["rsa2048"], 4, msg), note: "signature made by rsa2048"}, src{h: 4, sig: c.honestSig(c.by["dsa1024"], 4, msg), note: "signature made by dsa1024"})
 		}
 	}
 	done := enum.ParFor(len(c.keys)*256, c.r.Expired, func(i int) {
@@ -349,6 +363,9 @@ func (c *checker) codePairs() {
 		h := uint8(i % 256)
 		for s := 0; s < 256; s++ {
 			for _, sg := range sigs[k.name] {
+				if sg.only != nil && !sg.only[h] {
+					continue
+				}
 				stage := refVerify(k.pub, h, uint8(s), msg, sg.sig)
 				note := sg.note
 				c.judge("tls.VerifySignature", "codes", k, h, uint8(s), msg, sg.sig, stage, func() error {
@@ -1192,7 +1209,26 @@ func (c *checker) logLists() {
 				c.judgeLogList("signature_value", k, js, flip(sig, i), ops, fmt.Sprintf("signature bit %d flipped", i))
 			}
 			sm := [][2]any{{"signature truncated", sig[:len(sig)-1]}, {"signature emptied", []byte{}}, {"signature prefixed with 00", append([]byte{0}, sig...)},
-				{"signature followed by 00", append(clone(sig), 0)}, {"signature wrapped in a DigitallySigned", encDS(4, k.code, sig)}}
+				{"signature followed by 00", append(clone(sig), 0)}, {"signature wrapped in a DigitallySigned", encDS(4, k.code, sig)},
+				// the signature file is binary: line terminators are not part of it (an RSA value has a fixed length; for ECDSA,
+				// bytes after the DER value are ignored by the statement, and refVerify knows)
+				{"signature followed by LF", append(clone(sig), '\n')}, {"signature followed by CR LF", append(clone(sig), '\r', '\n')}, {"signature followed by LF LF", append(clone(sig), '\n', '\n')}}
+			// ... and a genuine signature may end in a byte that looks like a line terminator: lists (differing in one
+			// description) are signed until the signature value ends in LF and in CR
+			if k.name == "rsa2048" || k.name == "p256" {
+				for _, last := range []byte{'\n', '\r'} {
+					for try := 0; try < 4000; try++ {
+						ops2 := [][]llLog{{{fmt.Sprintf("log p256 #%d", try), c.by["p256"]}, ops[0][1]}, ops[1]}
+						js2 := logListJSON(ops2)
+						sg2 := sign(k.priv, 4, js2)
+						if sg2[len(sg2)-1] == last {
+							c.judgeLogList("honest", k, js2, sg2, ops2, fmt.Sprintf("honest list whose signature value ends in byte 0x%02x", last))
+							c.r.Add("log_list_signatures_ending_in_a_line_terminator_byte", 1)
+							break
+						}
+					}
+				}
+			}
 			for _, m := range sm {
 				c.judgeLogList("signature_value", k, js, m[1].([]byte), ops, m[0].(string))
 			}
